@@ -173,6 +173,9 @@ pub fn case(tape: &[u32]) -> CaseOutcome {
                 let mut clauses = vec![("executed statement", "executing statement", tr.statements), ("attribute", "executing attribute", tr.attributes), ("scan iteration", "processing scan matches", tr.scan_iterations)];
                 if lazy {
                     clauses.push(("match", "processing matches", tr.matches));
+                    // every value bound to a local variable is a deferred evaluation, forced at
+                    // the latest when execution ends
+                    clauses.push(("deferred evaluation", "evaluating value", tr.plain_defs));
                 }
                 for (what, site, need) in clauses {
                     if at(site) < need {
